@@ -16,6 +16,8 @@ type Value interface{}
 type Prim struct {
 	T   Term
 	Typ types.Type // static Go type when known (used to resolve method calls in contracts)
+	// DoneOf: this channel value is ctx.Done() of the context whose interface payload is DoneOf
+	DoneOf *Term
 }
 
 // PtrV is a pointer. Loc == nil means the nil pointer constant.
